@@ -96,6 +96,8 @@ def origin(v, env, pops, fetches, depth=0):
         return '%s[%s]' % (origin(v[1], env, pops, fetches, depth + 1), origin(v[2], env, pops, fetches, depth + 1))
     if v[0] == 'enum':
         return v[2]
+    if v[0] == 'proj':
+        return '%s[..]' % origin(v[1], env, pops, fetches, depth + 1)
     return v[0]
 
 
